@@ -66,6 +66,8 @@ class Peer(threading.Thread):
 
     def _close_own(self):
         self.closed_own = True
+        try: self.chan.shutdown(socket.SHUT_RDWR)      # wakes our own blocked recv and sends FIN at once
+        except Exception: pass
         try: self.chan.close()
         except Exception: pass
 
@@ -135,6 +137,13 @@ class _Proxy(object):
             r = object.__getattribute__(self, '_o').close(*a, **k)
             s._plog_add(object.__getattribute__(self, '_lab'))
         return r
+
+def _msgid(text):
+    """message-id attribute of an rpc / rpc-reply document (str or bytes), else None"""
+    if isinstance(text, bytes): text = text.decode('utf-8', 'replace')
+    k = text.find('message-id="')
+    if k < 0: return None
+    return text[k + 12:text.index('"', k + 12)]
 
 def unwrap(x):
     return object.__getattribute__(x, '_o') if isinstance(x, _Proxy) else x
@@ -211,6 +220,7 @@ def probe_class(kind):
             self._pv = {}
             self.close_returned_at = []       # monotonic time of every close() return (client threads only)
             self.close_raised = []
+            self.at_gate = threading.Event()
             base.__init__(self, dh)
             self._closing = _LoggedEvent(self)
             self.probe = ProbeListener(self)
@@ -232,6 +242,7 @@ def probe_class(kind):
                 with self._plock:
                     self._pv[name] = _Proxy(v, self, lab) if (v is not None and not isinstance(v, _Proxy)) else v
                     if v is None: self._plog_add('Drop' + lab)
+                    elif lab != 'ChannelClose': self._plog_add('OpenHandle')
             return property(g, s)
         if kind == 'ssh':
             _transport = _mk('transport', 'TransportClose')
@@ -245,12 +256,13 @@ def probe_class(kind):
                 timeout = self.HELLO_TIMEOUT        # tls/unix connect() pass no timeout: fixed 60 s in the source
             return base._post_connect(self, timeout)
         def send(self, message):
+            mid = _msgid(message)
             with self._plock:
                 try:
                     r = base.send(self, message)
                 except Exception as e:
-                    self._plog_add('Send', 0); raise
-                self._plog_add('Send', 1)
+                    self._plog_add('Send', (0, mid)); raise
+                self._plog_add('Send', (1, mid))
                 return r
         def close(self):
             mine = threading.current_thread() is self
@@ -275,7 +287,11 @@ def probe_class(kind):
                 base.run(self)
             finally:
                 self._plog_add('Exit')
+        read_gate = None                      # harness: an Event the worker waits for between select and recv
         def _transport_read(self):
+            g = self.read_gate
+            if g is not None:
+                self.at_gate.set(); g.wait(5)
             self._plog_add('ReadBegin')
             try:
                 d = base._transport_read(self)
@@ -284,7 +300,7 @@ def probe_class(kind):
             self._plog_add('Read', 1 if d else 0)
             return d
         def _dispatch_message(self, raw):
-            self._plog_add('Dispatch')
+            self._plog_add('Dispatch', _msgid(raw))
             return base._dispatch_message(self, raw)
         def _dispatch_error(self, err):
             self._plog_add('ErrBroadcast')
